@@ -193,7 +193,7 @@ def run_execution(cfg):
             s = _sim.Sim(w.clock, make_policy(sched, inv), trace_lines=bool(sched.get("lines")),
                          sdk_src=seams.sdk_src(), sdk_skew=skew,
                          step_budget=cfg.get("step_budget", 200_000) * (8 if sched.get("lines") else 1))
-            s.sdk_probe = lambda fn_, arg_: w.rec("sdk-call", fn=fn_, arg=arg_)
+            s.sdk_probe = lambda kind_, fn_, arg_: w.rec(kind_, fn=fn_, arg=arg_)
             if replay is not None:
                 ov = replay.get(str(inv), {})
                 s.overrides = {(k if str(k).startswith("y") else int(k)): v for k, v in ov.items()}
